@@ -52,3 +52,72 @@ Theorem edge_of_enumerated_subtree_before_fix_refuted :
   exists apropos keys cur,
     scan_deps apropos keys 8 cur = Some [p_on] /\ scan_deps_old apropos keys 8 cur = Some [].
 Proof. exists apropos_ex, [p_on; p_v0x], p_v0x. split; vm_compute; reflexivity. Qed.
+
+(* ---- second witness: before fix d5aff4d the empty rest behind the trailing
+   ',' of an rDepends list ("q,") was one more entry.  It resolves to the
+   directory itself ("/d/"), whose "enabled by" = "p" is then resolved against
+   the wrong base ("/d/p"); if that port carries an rDepends list again the
+   scan never ends. *)
+Fixpoint entries_from_old (fuel : nat) (e : str) : list str :=
+  match fuel with
+  | O => []
+  | S f =>
+      let e1 := skip_comma e in
+      e1 :: match e1 with
+            | [] => []
+            | _ :: rest => match after_comma rest with
+                           | Some t => entries_from_old f (comma :: t)
+                           | None => []
+                           end
+            end
+  end.
+Definition entries_old (v : str) : list str := entries_from_old (S (length v)) v.
+Definition dep_values_old (m : pmeta) : list str :=
+  flat_map (fun o => match o with Some v => entries_old v | None => [] end)
+           [enabled_by m; depends m; default_depends m].
+
+Section Old2.
+  Variable apropos : str -> option pmeta.
+  Variable keys : list str.
+  Fixpoint scan_deps_old2 (fuel : nat) (cur : str) : option (list str) :=
+    match fuel with
+    | O => None
+    | S f =>
+        fold_left
+          (fun acc (ic : bool * str) =>
+             let c := snd ic in
+             match apropos (if fst ic then c ++ [slash] else c) with
+             | None => acc
+             | Some m =>
+                 fold_left
+                   (fun acc e =>
+                      match acc, rel2abs e c with
+                      | Some l, Some a =>
+                          if has_key keys a then Some (l ++ [a])
+                          else match scan_deps_old2 f a with
+                               | Some l' => Some (l ++ l')
+                               | None => None
+                               end
+                      | _, _ => None
+                      end)
+                   (dep_values_old m) acc
+             end)
+          (flagged (ancestors cur)) (Some [])
+    end.
+End Old2.
+
+Definition p_d  : str := [47; 100; 47].            (* /d/  *)
+Definition p_dp : str := [47; 100; 47; 112].       (* /d/p *)
+Definition apropos_ex2 (p : str) : option pmeta :=
+  if str_eqb p p_d then Some {| enabled_by := Some [112]; depends := None; default_depends := None |}
+  else if str_eqb p p_dp then Some {| enabled_by := None; depends := Some [113; 44]; default_depends := None |}
+  else None.
+
+Theorem trailing_comma_entry_before_fix_refuted :
+  entries_old [113; 44] = [[113; 44]; []] /\ entries [113; 44] = [[113; 44]] /\
+  exists apropos cur,
+    scan_deps apropos [] 40 cur = Some [] /\ scan_deps_old2 apropos [] 40 cur = None.
+Proof.
+  split; [reflexivity|]. split; [reflexivity|].
+  exists apropos_ex2, p_dp. split; vm_compute; reflexivity.
+Qed.
